@@ -222,6 +222,69 @@ func refJSONFirstDeviation(toks []jtok) (class string, off int) {
 
 // ---- the run function: all clauses on one input ----
 
+const companionDoc = `{"k":[1,{"l":[true,null]}],"m":{},"n":[[[]]]}`
+
+var companionSolo string
+
+func init() {
+	c := &companion{}
+	c.start()
+	for !c.done {
+		c.next()
+	}
+	companionSolo = c.units.String()
+}
+
+type companion struct {
+	p     *json.Parser
+	units strings.Builder
+	done  bool
+	bad   string
+}
+
+func newCompanion() *companion {
+	c := &companion{}
+	c.start()
+	return c
+}
+
+func (c *companion) start() {
+	c.p = json.NewParser(parse.NewInputString(companionDoc))
+	c.units.Reset()
+	c.done = false
+}
+
+func (c *companion) step() {
+	if c.done {
+		// finished: compare and start over so that a parser is always open next to the one under test
+		if c.bad == "" && c.units.String() != companionSolo {
+			c.bad = fmt.Sprintf("returned %s instead of %s", c.units.String(), companionSolo)
+		}
+		c.start()
+		return
+	}
+	c.next()
+}
+
+func (c *companion) next() {
+	gt, data := c.p.Next()
+	fmt.Fprintf(&c.units, "%v(%s)%v ", gt, data, c.p.State())
+	if gt == json.ErrorGrammar {
+		fmt.Fprintf(&c.units, "%v", c.p.Err())
+		c.done = true
+	}
+}
+
+func (c *companion) finish() string {
+	for !c.done {
+		c.step()
+	}
+	if c.bad == "" && c.units.String() != companionSolo {
+		c.bad = fmt.Sprintf("returned %s instead of %s", c.units.String(), companionSolo)
+	}
+	return c.bad
+}
+
 func c10Run(c *engine.Ctx, in []byte, args map[string]string) {
 	n := len(in)
 	if cap(in) == n {
@@ -236,6 +299,14 @@ func c10Run(c *engine.Ctx, in []byte, args map[string]string) {
 	}
 	z := parse.NewInputBytes(in)
 	p := json.NewParser(z)
+	// a second parser over another document is stepped alternately with the one under test: two parsers alive at the
+	// same time, with containers open at different depths, must not influence each other
+	comp := newCompanion()
+	defer func() {
+		if msg := comp.finish(); msg != "" {
+			c.Fail("companion-parser-disturbed", fmt.Sprintf("while %q was parsed, a second parser over %q %s", P, companionDoc, msg))
+		}
+	}()
 	var out bytes.Buffer
 	needSep := false
 	type fr struct{ obj bool }
@@ -247,6 +318,7 @@ func c10Run(c *engine.Ctx, in []byte, args map[string]string) {
 	var obs uint64 = 14695981039346656037
 	for calls := 1; ; calls++ {
 		gt, data := p.Next()
+		comp.step()
 		na := abstractState(s)
 		recordAbs(c, abs, na, int(gt))
 		abs = na
